@@ -11,9 +11,10 @@ What is modelled here is what scipy does with them (scipy/signal/_signaltools.py
   y    = sosfilt(sos, reverse(y), zi·y[-1])
   out  = reverse(y)[edge : −edge]               `ValueError` when len(x) ≤ edge
 
-Generic numerics (executed at Float, proved about at ℝ); no transcendental function is needed.  Core Lean only.
+Generic numerics (executed at Float, proved about at ℝ); only `retH` (frequency response on the FFT grid) needs cos/sin.
+Core Lean only.
 -/
-import OptiVerif.Model.Num
+import OptiVerif.Model.Fourier
 
 set_option linter.unusedSectionVars false
 
@@ -134,6 +135,41 @@ def lpf (secs : List (Sec R)) (edge : Nat) (s : Sig (Cx R)) : Except Wire.Err (S
 def dcGain (c : Sec R) : R := (c.b0 + c.b1 + c.b2) / (((1 : Nat) : R) + c.a1 + c.a2)
 end
 
+/-! ### `retH`: the single-pass frequency response on the FFT grid
+
+`_, H = sg.sosfreqz(sos_band, worN=signal.size, fs=fs, whole=True); return output, fftshift(H)`.
+scipy: `sosfreqz` multiplies, section by section, `freqz(b, a, worN=N, whole=True)` =
+`polyval(b, z⁻¹)/polyval(a, z⁻¹)` at `z⁻¹ = exp(-1j·w_k)`, `w_k = 2πk/N`, k = 0..N-1 (`fs` only labels the axis). -/
+section
+variable {R : Type} [Add R] [Sub R] [Mul R] [Div R] [Neg R] [NatCast R] [Transc R]
+
+def cone : Cx R := ⟨((1 : Nat) : R), ((0 : Nat) : R)⟩
+
+/-- complex division a/b = a·conj(b)/|b|² -/
+def cdiv (a b : Cx R) : Cx R :=
+  ⟨(a.re * b.re + a.im * b.im) / b.normSq, (a.im * b.re - a.re * b.im) / b.normSq⟩
+
+/-- numerator `b0 + b1·w + b2·w²` and denominator `1 + a1·w + a2·w²` of one section at `w = z⁻¹` -/
+def secNum (c : Sec R) (w : Cx R) : Cx R := Cx.ofReal c.b0 + Cx.smul c.b1 w + Cx.smul c.b2 (w * w)
+def secDen (c : Sec R) (w : Cx R) : Cx R := cone + Cx.smul c.a1 w + Cx.smul c.a2 (w * w)
+def secResp (c : Sec R) (w : Cx R) : Cx R := cdiv (secNum c w) (secDen c w)
+
+/-- the cascade: Π_i B_i(z⁻¹)/A_i(z⁻¹) -/
+def sosResp : List (Sec R) → Cx R → Cx R
+  | [], _ => cone
+  | c :: cs, w => secResp c w * sosResp cs w
+
+/-- `z⁻¹` at grid point k of N: `exp(-j·2πk/N)` -/
+def gridW (n k : Nat) : Cx R := Cx.cis (-(Fourier.ang n k))
+
+/-- the response on the unshifted grid k = 0..N-1 (what `sosfreqz(..., worN=N, whole=True)` returns) -/
+def respGrid (secs : List (Sec R)) (n : Nat) : List (Cx R) :=
+  (List.range n).map (fun k => sosResp secs (gridW n k))
+
+/-- what `LPF(..., retH=True)` returns beside the output: `fftshift(H)` -/
+def retH (secs : List (Sec R)) (n : Nat) : List (Cx R) := Fourier.fftshift (respGrid secs n)
+end
+
 /-! ### line protocol -/
 open Wire
 
@@ -157,7 +193,7 @@ def fSig {α} (f : List α → String) (s : Sig α) : String :=
   fList f s.rows ++ " " ++ (match s.noise with | none => "0" | some n => "1 " ++ fList f n)
 
 -- @handler OptiVerif.Filter.handle
-/-- `filter.lpf <req>` · `filter.bpf <req>` · `filter.row <edge> <secs> <real row>` -/
+/-- `filter.lpf <req>` · `filter.bpf <req>` · `filter.row <edge> <secs> <real row>` · `filter.reth <N> <secs>` -/
 def handle : List String → Option String
   | "filter.lpf" :: args =>
     some <| match Wire.run pReq args with
@@ -173,6 +209,10 @@ def handle : List String → Option String
       match bpf secs edge s with
       | .ok o => Wire.ok (fSig fCxList o)
       | .error e => Wire.err e
+  | "filter.reth" :: args =>
+    some <| match Wire.run (do let n ← nat; let s ← list pSec; pure (n, s)) args with
+    | .error e => "bad-op " ++ e
+    | .ok (n, secs) => Wire.ok (fCxList (retH secs n))
   | "filter.row" :: args =>
     some <| match Wire.run (do let e ← nat; let s ← list pSec; let r ← list float; pure (e, s, r)) args with
     | .error e => "bad-op " ++ e
